@@ -48,7 +48,7 @@ Print Assumptions C02_offset_injective.
 (** the helpers emitted into the C file are floor division / floor modulo for every dividend *)
 Theorem C02_floor_helpers : forall n q, 0 < q ->
   exo_floor_div n q = n / q /\ exo_floor_mod n q = n mod q.
-Proof. intros n q H. split; [exact (exo_floor_div_correct n q H) | exact (exo_floor_mod_correct n q H)]. Qed.
+Proof. exact floor_helpers_correct. Qed.
 Print Assumptions C02_floor_helpers.
 
 (** the emitted C for an index quotient / remainder (raw operator when the dividend is flagged non-negative,
